@@ -29,6 +29,9 @@ func init() {
 }
 
 func runC05(c *Ctx) {
+	// "for any min/max pair the configuration accepts": the pair stored in the Interface is the pair that
+	// parseMinInterval validated (same max value, not a later rounding of it)
+	configGlue(c, "R-C05-5")
 	md := c.needFunc("R-C05-3", "internal/corerad", "multicastDelay")
 	if md == nil {
 		return
